@@ -45,6 +45,7 @@ def run(c):
     if not cases or not vcases:
         raise Machinery("TLC emitted no cases")
     # ---- RP: spec -> code.  The emitted `acceptable` set is the statement's demand (both readings of "size")
+    n_emitted = len(cases) + len(vcases)
     if q:
         vcases = rnd.sample(vcases, min(len(vcases), 6000))
     batch = []
@@ -119,9 +120,9 @@ def run(c):
                 b["lines"], b["req"], b["got"], b["spec_offer"]))
     c.extra["clauses_seen"] = sorted(seen)
     c.extra["pinned_model_counterexample"] = pinned_violates
-    c.extra["exhaustive"] = True
+    c.extra["exhaustive"] = n_emitted == len(cases) + len(vcases)   # quick replays a seeded sample of the line-validity space
     c.rule = ("every moduli file of <= 2 lines over %d sizes x {size = bits, size = bits - 1} x every (min, prefer, max) over %d values, "
-              "every single-line file over type 0-3 x tests 0-15 x tries {0,99,100,101} x bits-size {-1,0,1,2} (TLC-enumerated, replayed on "
+              "every single-line file over type 0-3 x tests 0-15 x tries {0,99,100,101} x bits-size {-1,0,1,2} (TLC-enumerated; quick tier replays a seeded sample of 6000 of them on "
               "ModulusPack) + seeded random files with real bit sizes and noise lines; distinct = distinct (line classes, request)"
               % (len(list(sel["sizes"])), len(list(sel["reqvals"]))))
     c.assumptions = ["the returned modulus identifies its line (generated moduli are pairwise distinct)",
